@@ -9,7 +9,11 @@ of field objects becomes `Malformed` (instantiation raises TypeError in Python).
 Fragment:  UnsignedInt | UnsignedIntMask | Timestamp | GroupExtensionIdentifier |
 EventMessageRevision | CompletionCode | Bitfield(Bit | ReservedBit) | ByteArray |
 VariableByteArray(lambda/def obj: obj.<field>) | String | RemainingBytes |
-Optional(f) | Conditional(pred, f) with pred ::= obj.<bitfield>.<bit> == <int> | pred or pred | pred and pred.
+Optional(f) | Conditional(pred, f) with pred ::= obj.<bitfield>.<bit> == <int> | pred or pred | pred and pred,
+optionally preceded by local alias assignments.  Semantic fallbacks (probing the function on objects
+of the class): a predicate that provably-by-probing depends only on 1-bit members of earlier plain
+bit-fields is tabulated into a DNF; a length function that returns the value of exactly one earlier
+integer field.  Every generated layout is executed against its class in the same run.
 """
 import argparse
 import ast
@@ -40,14 +44,101 @@ def fn_return_expr(fn):
     node = tree.body[0]
     if isinstance(node, ast.FunctionDef):
         body = [s for s in node.body if not (isinstance(s, ast.Expr) and isinstance(s.value, ast.Constant))]
-        if len(body) != 1 or not isinstance(body[0], ast.Return) or len(node.args.args) != 1:
-            raise Untranslated('function body is not a single return')
-        return node.args.args[0].arg, body[0].value
+        if not body or not isinstance(body[-1], ast.Return) or len(node.args.args) != 1 or body[-1].value is None:
+            raise Untranslated('function body is not [alias assignments;] return <expr>')
+        # local aliases `name = <attribute chain on the argument>` are substituted into the return
+        aliases = {}
+        for st in body[:-1]:
+            if not (isinstance(st, ast.Assign) and len(st.targets) == 1 and isinstance(st.targets[0], ast.Name)):
+                raise Untranslated('statement before the return is not a simple alias assignment')
+            aliases[st.targets[0].id] = _subst(st.value, aliases)
+        return node.args.args[0].arg, _subst(body[-1].value, aliases)
     # lambda inside an expression/assignment
     lams = [n for n in ast.walk(tree) if isinstance(n, ast.Lambda)]
     if len(lams) != 1 or len(lams[0].args.args) != 1:
         raise Untranslated('cannot isolate lambda')
     return lams[0].args.args[0].arg, lams[0].body
+
+
+class _Subst(ast.NodeTransformer):
+    def __init__(self, env):
+        self.env = env
+
+    def visit_Name(self, node):
+        if isinstance(node.ctx, ast.Load) and node.id in self.env:
+            return self.env[node.id]
+        return node
+
+
+def _subst(expr, env):
+    import copy
+    return _Subst(env).visit(copy.deepcopy(expr)) if env else expr
+
+
+def synth_cond(cls, fs, idx, fn, names, M):
+    """Semantic fallback for predicates outside the syntactic fragment: if the predicate is a
+    function of 1-bit members of earlier plain Bitfields only (checked by probing every other
+    earlier member / integer field for influence), tabulate it over those bits and emit the DNF.
+    Anything else stays Untranslated (fail closed)."""
+    import itertools
+    import random
+    rnd = random.Random(12345)
+    bits1, others = [], []
+    for fi, f in enumerate(fs[:idx]):
+        if type(f) is M.Bitfield:
+            for bi, b in enumerate(f._bits):
+                (bits1 if b._width == 1 else others).append((fi, bi, b))
+        elif isinstance(f, M.UnsignedInt) and type(f) is not M.CompletionCode:
+            others.append((fi, None, f))
+    if len(bits1) > 10:
+        raise Untranslated('predicate outside the fragment and too many candidate bits to tabulate')
+
+    def probe(assign, noise):
+        obj = cls()
+        for (fi, bi, b), v in zip(bits1, assign):
+            setattr(getattr(obj, fs[fi].name), b.name, v)
+        for (fi, bi, b), v in zip(others, noise):
+            if bi is None:
+                setattr(obj, b.name, v)
+            else:
+                setattr(getattr(obj, fs[fi].name), b.name, v)
+        r = fn(obj)
+        if r is not True and r is not False and r not in (0, 1):
+            raise Untranslated('predicate does not return a boolean')
+        return bool(r)
+
+    def noise():
+        return [rnd.randrange(256 ** b.length) if bi is None else rnd.randrange(2 ** b._width) for (fi, bi, b) in others]
+    table = {}
+    try:
+        for assign in itertools.product((0, 1), repeat=len(bits1)):
+            vals = {probe(assign, noise()) for _ in range(6)}
+            if len(vals) != 1:
+                raise Untranslated('predicate depends on something other than 1-bit members of earlier bit-fields')
+            table[assign] = vals.pop()
+    except Untranslated:
+        raise
+    except Exception as e:  # noqa
+        raise Untranslated('predicate cannot be probed: %s' % type(e).__name__)
+    relevant = [i for i in range(len(bits1))
+                if any(table[a] != table[a[:i] + (1 - a[i],) + a[i + 1:]] for a in table)]
+    if not relevant:
+        raise Untranslated('constant predicate')
+    terms = []
+    seen = set()
+    for a, v in table.items():
+        key = tuple(a[i] for i in relevant)
+        if v and key not in seen:
+            seen.add(key)
+            atoms = ['(CBit %d %d %d)' % (bits1[i][0], bits1[i][1], a[i]) for i in relevant]
+            t = atoms[-1]
+            for x in reversed(atoms[:-1]):
+                t = '(CAnd %s %s)' % (x, t)
+            terms.append(t)
+    out = terms[-1]
+    for x in reversed(terms[:-1]):
+        out = '(COr %s %s)' % (x, out)
+    return out
 
 
 def tr_cond(expr, arg, names, fields, M):
@@ -110,12 +201,18 @@ def tr_base(f, names, fields, M):
         d = list(f.default) if f.default is not None else [0] * f.length
         return 'BBytes %d' % f.length, '(VBytes %s)' % hexs(d), []
     if t is M.VariableByteArray:
-        arg, expr = fn_return_expr(f._length_func)
-        if not (isinstance(expr, ast.Attribute) and isinstance(expr.value, ast.Name) and expr.value.id == arg):
-            raise Untranslated('length function outside fragment')
-        if expr.attr not in names:
-            raise Untranslated('length function reads unknown field %s' % expr.attr)
-        return 'BVar %d' % names.index(expr.attr), 'VNone', []
+        try:
+            arg, expr = fn_return_expr(f._length_func)
+            if not (isinstance(expr, ast.Attribute) and isinstance(expr.value, ast.Name) and expr.value.id == arg):
+                raise Untranslated('length function outside fragment')
+            if expr.attr not in names:
+                raise Untranslated('length function reads unknown field %s' % expr.attr)
+            return 'BVar %d' % names.index(expr.attr), 'VNone', []
+        except Untranslated:
+            if CLS_CTX[0] is None:
+                raise
+            j = synth_varlen(CLS_CTX[0], fields, [inner_of(g, M) for g in fields].index(f), f._length_func, M)
+            return 'BVar %d' % j, 'VNone', []
     if t is M.String:
         d = f.default if f.default is not None else ''
         if isinstance(d, str):
@@ -124,6 +221,32 @@ def tr_base(f, names, fields, M):
     if t is M.RemainingBytes:
         return 'BRem', '(VBytes [])', []
     raise Untranslated('field class %s outside fragment' % t.__name__)
+
+
+CLS_CTX = [None]     # the class being translated (for the semantic fallbacks)
+
+
+def synth_varlen(cls, fs, idx, fn, M):
+    """Semantic fallback for length functions: the earlier plain integer field whose value the
+    function returns, found by probing with three different assignments."""
+    import random
+    rnd = random.Random(54321)
+    cands = [j for j, g in enumerate(fs[:idx]) if isinstance(g, M.UnsignedInt) and type(g) is not M.CompletionCode]
+    alive = set(cands)
+    for _ in range(4):
+        obj = cls()
+        vals = {}
+        for j in cands:
+            vals[j] = rnd.randrange(1, 256 ** fs[j].length)
+            setattr(obj, fs[j].name, vals[j])
+        try:
+            r = fn(obj)
+        except Exception as e:  # noqa
+            raise Untranslated('length function cannot be probed: %s' % type(e).__name__)
+        alive = {j for j in alive if vals[j] == r}
+    if len(alive) != 1:
+        raise Untranslated('length function is not the value of one earlier integer field')
+    return alive.pop()
 
 
 # Message.__init__ runs `self.data = ''` AFTER _create_fields: the attribute of a field
@@ -137,14 +260,23 @@ def tr_field(f, names, fields, M):
         d = CLOBBERED.get(f._field.name, 'VNone')
         return 'mkFld %s KOpt (%s) %s [%s]' % (q(f._field.name), b, d, '; '.join(map(q, bn)))
     if type(f) is M.Conditional:
-        arg, expr = fn_return_expr(f._condition_fn)
-        c = tr_cond(expr, arg, names, fields, M)
+        try:
+            arg, expr = fn_return_expr(f._condition_fn)
+            c = tr_cond(expr, arg, names, fields, M)
+        except Untranslated:
+            if CLS_CTX[0] is None:
+                raise
+            c = synth_cond(CLS_CTX[0], fields, fields.index(f), f._condition_fn, names, M)
         b, d, bn = tr_base(f._field, names, fields, M)
         d = CLOBBERED.get(f._field.name, d)
         return 'mkFld %s (KCond %s) (%s) %s [%s]' % (q(f._field.name), c, b, d, '; '.join(map(q, bn)))
     b, d, bn = tr_base(f, names, fields, M)
     d = CLOBBERED.get(f.name, d)
     return 'mkFld %s KPlain (%s) %s [%s]' % (q(f.name), b, d, '; '.join(map(q, bn)))
+
+
+def inner_of(f, M):
+    return f._field if type(f) in (M.Optional, M.Conditional) else f
 
 
 def field_name(f, M):
@@ -164,9 +296,12 @@ def tr_layout(cls, M):
         return 'Malformed %s' % q('__fields__ holds a non-field object')
     try:
         names = [field_name(f, M) for f in fs]
+        CLS_CTX[0] = cls
         items = [tr_field(f, names, list(fs), M) for f in fs]
     except Untranslated as e:
         return 'Untranslated %s' % q(str(e))
+    finally:
+        CLS_CTX[0] = None
     return 'Fields [\n    %s]' % ';\n    '.join(items)
 
 
